@@ -316,7 +316,22 @@ class PageBreakCalculator(BaseModel):
                 actual_font = 1
 
                 if table_attrs:
-                    pass
+                    # Measure the cell at its own font and size (attributes are
+                    # indexed by displayed column, like the rendered table)
+                    from ..attributes import BroadcastValue
+
+                    size_value = BroadcastValue(
+                        value=getattr(table_attrs, "text_font_size", None),
+                        dimension=None,
+                    ).iloc(row_idx, width_idx)
+                    if size_value is not None:
+                        actual_font_size = size_value
+                    font_value = BroadcastValue(
+                        value=getattr(table_attrs, "text_font", None),
+                        dimension=None,
+                    ).iloc(row_idx, width_idx)
+                    if font_value is not None:
+                        actual_font = font_value
 
                 text_width = get_string_width(
                     cell_value,
